@@ -14,7 +14,8 @@ package snowflake_client
 // description with its SDP passed through util.StripLocalAddresses (exactly once, on the original text).
 //@ ghost var strippedSDP string
 //@ func (bc *BrokerChannel) Negotiate(offer *webrtc.SessionDescription) (answer *webrtc.SessionDescription, err error)
-//@   props C08
+//@   props C08, C15
+//@   ensures {value-or-error} (err == nil) <==> (answer != nil)
 //@   flag nosafety
 //@   requires bc != nil && offer != nil
 //@   at call StripLocalAddresses assert {strips-the-original} arg0 == entry(offer.SDP)
@@ -67,3 +68,152 @@ package snowflake_client
 //@   at call RoundTrip assert {direct-when-no-front} r.front == "" ==> arg0.URL.Host == origHost
 //@   at call LimitReader assert {body-only-after-200} resp.StatusCode == 200 && arg1 == 100001
 //@   ensures {limit-hit-is-an-error} err == nil ==> calls(LimitReader) == 1 && unbox(lr, *io.LimitedReader).N != 0
+//
+// ---- the client's peer collection (C15) ----
+// Tongue.GetMax is a constant of the tongue (ghost field max); the hand-over channel is sized with it.
+//@ ghost field Tongue.max int
+//@ immutable ghost Tongue.max
+//   (maxima >= 1: the quantifier of the property; a tongue reporting a negative maximum would make NewPeers panic)
+//@ interface Tongue.GetMax() (r int)
+//@   pure
+//@   ensures r == recv.max && r >= 1
+// Catch (implemented in this repository by WebRTCDialer.Catch -> NewWebRTCPeerWithEvents): allocates the new peer and
+// talks to the broker; it writes nothing the Peers contracts read (assumed frame: new objects only).
+//@ interface Tongue.Catch() (w *WebRTCPeer, err error)
+//@   assigns nothing
+//@   ensures (err == nil) <==> (w != nil)
+//@   ensures err == nil ==> fresh(w) && w.closed != nil
+//
+// Peers is a monitor on collectLock. Whenever the lock is free: the collection holds at most max peers (the bound of
+// the property), and the hand-over channel is closed only after melt is (End closes melt first, without the lock, and
+// snowflakeChan under it), so a Collect that saw melt open under the lock can send without hitting a closed channel.
+//@ immutable Peers.snowflakeChan
+//@ immutable Peers.melt
+//@ immutable Peers.activePeers
+//@ immutable Peers.Tongue
+//@ channel Peers.snowflakeChan carries value != nil && value.closed != nil
+//@ invariant Peers(p) guard collectLock [C15]: p.activePeers != nil && p.snowflakeChan != nil && p.melt != nil && p.activePeers.n >= 0
+//@   clause {at-most-max-peers} p.Tongue != nil ==> p.activePeers.n <= p.Tongue.max
+//@   clause {handover-closed-only-after-melt} closed(p.snowflakeChan) ==> closed(p.melt)
+//@   protects ghost list.List.n
+//
+//@ func NewPeers(tongue Tongue) (p *Peers, err error)
+//@   props C15
+//@   ensures {value-or-error} (err == nil) <==> (p != nil)
+//@   ensures tongue == nil ==> err != nil
+//@   ensures err == nil ==> fresh(p) && inv(p) && p.Tongue == tongue && chancap(p.snowflakeChan) == tongue.max && !closed(p.melt) && !closed(p.snowflakeChan)
+//
+// Closed / Close of a peer: Closed reports whether the peer's closed channel is closed; Close closes it (once).
+//@ func (c *WebRTCPeer) Closed() (r bool)
+//@   props C15
+//@   flag concurrent closeonly=closed
+//@   requires c != nil
+//@   assumes c.closed != nil
+//@   ensures r == closed(c.closed)
+//
+// Count (with the lock held): purges and reports the size, never above what it found.
+//@ func (p *Peers) purgeClosedPeers()
+//@   props C15
+//@   requires p != nil && p.activePeers != nil && p.activePeers.n >= 0
+//@   loop 1 invariant p.activePeers.n <= entry(p.activePeers.n) && p.activePeers.n >= 0 && (e != nil ==> tagis(e.Value, *WebRTCPeer) && unbox(e.Value, *WebRTCPeer) != nil)
+//@   ensures p.activePeers.n <= old(p.activePeers.n) && p.activePeers.n >= 0
+//
+//@ func (p *Peers) Count() (r int)
+//@   props C15
+//@   requires p != nil && p.activePeers != nil && p.activePeers.n >= 0
+//@   ensures r == p.activePeers.n && r <= old(p.activePeers.n) && r >= 0
+//
+// Collect: nothing is collected after End (melt closed), nor at capacity; a failed Catch is returned to the caller
+// (who retries later); a caught peer is filed and handed over. The hand-over send is not made on a closed channel and
+// can be abandoned when the collection is ended (B1), although it is made under the lock: End closes melt without
+// needing the lock (asserted in End's contract).
+//@ func (p *Peers) Collect() (w *WebRTCPeer, err error)
+//@   props C15
+//@   flag concurrent sendclosed lifetime=melt lock-free-abandon=melt
+//@   requires p != nil
+//@   ensures {value-or-error} (err == nil) <==> (w != nil)
+//@   at call Catch assert {only-below-capacity-and-not-melted} p.activePeers.n < p.Tongue.max && held(&p.collectLock)
+//@   at call PushBack assert {files-what-was-caught} calls(Catch) == 1
+//@   ensures {catch-failure-is-returned} calls(Catch) == 1 && calls(PushBack) == 0 ==> err != nil
+//
+// Pop: never hands a peer to the data path that it found closed; nil after End.
+//@ ghost var popChecked ref
+//@ ghost var popWasClosed bool
+//@ func (p *Peers) Pop() (r *WebRTCPeer)
+//@   props C15
+//@   flag concurrent paired-recv=Collect,End
+//@   requires p != nil && p.snowflakeChan != nil
+//@   loop 1 invariant true
+//@   at call Closed ghost popChecked = arg0
+//@   after call Closed ghost popWasClosed = ret0
+//@   ensures {only-peers-found-open} r != nil ==> r == popChecked && !popWasClosed
+//
+// End: idempotent (the body runs under a sync.Once, so a second End cannot close an already closed channel).
+// end, the body: melt is closed first and without the lock (so that a Collect blocked in its hand-over, and the connect
+// loop, stop), the hand-over channel only under it; every peer still held is closed.
+// melt and snowflakeChan are closed nowhere else in the repository (closed-world: the at-call clauses below are the
+// only close sites of these two channels), so they are open until end has run.
+//@ func (p *Peers) End()
+//@   props C15
+//@   requires p != nil
+//@   assumes !oncedone(&p.endOnce) ==> !closed(p.melt) && !closed(p.snowflakeChan) && p.melt != nil
+//
+//@ func (p *Peers) end()
+//@   props C15
+//@   flag concurrent safety-close
+//@   requires p != nil
+//@   requires {runs-at-most-once} !closed(p.melt) && !closed(p.snowflakeChan) && p.melt != nil
+//@   loop 1 invariant p.activePeers.n >= 0 && p.activePeers.n <= cnt && (e != nil ==> tagis(e.Value, *WebRTCPeer) && unbox(e.Value, *WebRTCPeer) != nil) && held(&p.collectLock) && closed(p.melt) && closed(p.snowflakeChan)
+//@   at call close#1 assert {melt-closed-without-the-lock} ch == p.melt && !held(&p.collectLock)
+//@   at call close#2 assert {handover-closed-under-the-lock-after-melt} ch == p.snowflakeChan && held(&p.collectLock) && closed(p.melt)
+//@   at call Close assert {closes-every-peer-it-holds} held(&p.collectLock)
+//
+// ---- a failed attempt to obtain a peer is reported, never fatal (C15) ----
+//@ immutable WebRTCPeer.eventsLogger
+//@ immutable WebRTCPeer.closed
+//@ immutable WebRTCPeer.id
+// traffic and event sinks write none of the state these contracts read
+//@ interface bytesLogger.addInbound(n int)
+//@   assigns CH!sends
+//@ interface bytesLogger.addOutbound(n int)
+//@   assigns CH!sends
+// preparePeerConnection: success means a peer connection, a data channel and the open-notification channel exist;
+// on failure nothing may be assumed about c.pc (NewPeerConnection itself can fail: unusable ICE configuration).
+//@ func (c *WebRTCPeer) preparePeerConnection(config *webrtc.Configuration) (err error)
+//@   props C15
+//@   flag concurrent paired-recv=GatheringCompletePromise
+//@   requires c != nil && config != nil
+//@   ensures {usable-on-success} err == nil ==> c.pc != nil && c.transport != nil && c.open != nil
+//
+// connect: every failure (offer, rendezvous, remote description, data channel never opening) is returned as an error
+// and reported to the event receiver with that error; no step dereferences a peer connection that was not created.
+//@ func (c *WebRTCPeer) connect(config *webrtc.Configuration, broker *BrokerChannel) (err error)
+//@   props C15
+//@   flag concurrent
+//@   requires c != nil && config != nil && broker != nil
+//@   assumes c.eventsLogger != nil
+//@   at call OnNewSnowflakeEvent#4 assert {timeout-is-reported-with-its-error} unbox(arg0, event.EventOnSnowflakeConnectionFailed).Error != nil
+//@   ensures {failure-is-returned} calls(preparePeerConnection) == 1
+//
+// The connect loop waits either for its retry timer or for the collection to be ended (B1): it cannot outlive End by
+// more than one attempt in flight.
+//@ func connectLoop(snowflakes SnowflakeCollector)
+//@   props C15
+//@   flag concurrent lifetime=Melted
+//@   requires snowflakes != nil
+//@   loop 1 invariant true
+//
+// NAT probing walks the configured STUN servers: no configuration (empty list, server without URL) may panic.
+// Every server handed to it was built by parseIceServers with exactly one URL (proved below); NewSnowflakeClient only
+// shuffles and truncates that list in between (taken as an assumption here: the shuffle runs inside math/rand).
+//@ func updateNATType(servers []webrtc.ICEServer, broker *BrokerChannel)
+//@   props C15
+//@   requires broker != nil
+//@   assumes forall i int :: 0 <= i && i < len(servers) ==> len(servers[i].URLs) >= 1
+//@   loop 1 invariant true
+//
+//@ func parseIceServers(addresses []string) (r []webrtc.ICEServer)
+//@   props C15
+//@   loop 1 invariant len(servers) == rangeindex#1 + 1 && rangeindex#1 + 1 <= len(addresses) && (forall i int :: 0 <= i && i < len(servers) ==> len(servers[i].URLs) == 1)
+//@   ensures {one-url-per-server} forall i int :: 0 <= i && i < len(r) ==> len(r[i].URLs) == 1
+//@   ensures len(r) == len(addresses)
